@@ -13,11 +13,15 @@ pub mod c18;
 
 // --- kit-wire (wirekit): C06, C16 ---------------------------------------------------------------
 // --- kit-wire2 (wirekit2): C13, C17, C19 --------------------------------------------------------
+#[cfg(feature = "kit-wire2")]
+pub mod c17;
 // --- kit-sim (simkit): C01-C05, C08, C09, C11, C12, C14, C15, C18(in-Sim), C20 ------------------
 #[cfg(feature = "kit-sim")]
 pub mod c05;
 #[cfg(feature = "kit-sim")]
 pub mod c11;
+#[cfg(feature = "kit-sim")]
+pub mod c20;
 
 pub enum Action<'a> {
     Check(&'a Options),
@@ -47,11 +51,15 @@ pub fn dispatch(id: &str, a: &Action) -> i32 {
         "C18" => act::<c18::C18>(a),
         // (kit-wire arms)
         // (kit-wire2 arms)
+        #[cfg(feature = "kit-wire2")]
+        "C17" => act::<c17::C17>(a),
         // (kit-sim arms)
         #[cfg(feature = "kit-sim")]
         "C05" => act::<c05::C05>(a),
         #[cfg(feature = "kit-sim")]
         "C11" => act::<c11::C11>(a),
+        #[cfg(feature = "kit-sim")]
+        "C20" => act::<c20::C20>(a),
         other => {
             eprintln!("harness error: no check registered for property {other} in this build");
             2
